@@ -706,13 +706,22 @@ class BinaryOp(Expr):
                     break
         left = operand_type.coerce(self.left.eval())
         right = operand_type.coerce(self.right.eval())
+        if not operand_type.can_hold(left) or \
+           not operand_type.can_hold(right):
+            # converting the operand overflows at run time
+            raise OverflowError
 
         def qbool(x):
             return -1 if x else 0
 
         def limit(x):
-            if not self.left.type.is_integral:
+            if not self.type.is_integral:
                 return x
+
+            if isinstance(x, float):
+                # the machine rounds a float result when it stores
+                # it in an integral cell
+                x = round(x)
 
             c_type = {
                 Type.INTEGER: ctypes.c_short,
@@ -745,6 +754,14 @@ class BinaryOp(Expr):
             Operator.INTDIV: lambda a, b: limit(a // b),
             Operator.EXP: lambda a, b: limit(a ** b),
         }[self.op](left, right)
+
+        if isinstance(result, complex):
+            raise OverflowError
+
+        if self.type == Type.SINGLE:
+            # SINGLE values are kept at single precision (raises
+            # OverflowError if the result does not fit)
+            result = Type.SINGLE.coerce(result)
 
         return result
 
